@@ -11,9 +11,7 @@ from `impl Drop for Hole` — on the registers the frame has AT THAT MOMENT; a c
 (`Fn.byRef`-style: flag in the unwind table) hands its current `hole.position` back to the owner first.
 `self.map.clear()` is a panic point of its own (`dropFuse`: the `Drop` of an item or a priority panics).
 
-Everything that is not a panic point or control flow is the plain interpreter, lifted.  Limitation: the bodies nested in
-`removeFullThen`, `getFullMutThen`, `mapRemoved`, `mapChanged`, `mapChangedBy` run plain (no panic points inside them):
-no fused theorem is stated about functions that use these statements.
+Everything that is not a panic point or control flow is the plain interpreter, lifted.
 -/
 namespace PQ.SrcF
 open PQ PQ.Src PQ.Arith
@@ -245,6 +243,55 @@ def execStepF (fuse : Nat) (dropFuse : Bool) (plain : Stmt → St P → R (St P 
       pure ((st.setS s).setN v c.1, .normal)
   | .mapClear, st =>
     if dropFuse then .error (.panic st) else pure (st.setS { st.s with map := #[] }, .normal)
+  | .removeFullThen key vi body res, st =>
+    match st.s.map.swapRemoveFull (st.n key) with
+    | none => pure (st, .ret (.optRemoved none))
+    | some (i, e, map) => do
+      let (st, fl) ← execStepF fuse dropFuse plain callf recF callfF byRef body
+        ((st.setS { st.s with map := map }).setN vi i)
+      match fl with
+      | .normal => do
+        let p ← liftF (evalN st res)
+        pure (st, .ret (.optRemoved (some (e.1, e.2, p))))
+      | _ => .error (.fault stuck)
+  | .getFullMutThen key vidx body onNone, st =>
+    match st.s.map.getFull (st.n key) with
+    | some (index, _, _) => execStepF fuse dropFuse plain callf recF callfF byRef body (st.setN vidx index)
+    | none => execStepF fuse dropFuse plain callf recF callfF byRef onNone st
+  | .mapRemoved key vpos body, st => do
+    let (s, r) ← fromCall st none (callfF .storeRemove st.s [st.n key] [] [])
+    match r with
+    | .optRemoved none => pure (st.setS s, .ret (.optEntry none))
+    | .optRemoved (some (it, p, pos)) => do
+      let (st, fl) ← execStepF fuse dropFuse plain callf recF callfF byRef body ((st.setS s).setN vpos pos)
+      match fl with
+      | .normal => pure (st, .ret (.optEntry (some (it, p))))
+      | _ => .error (.fault stuck)
+    | _ => .error (.fault stuck)
+  | .mapChanged key p vpos body, st => do
+    let (s, x) ← liftF (evalP callf st p)
+    let (s, r) ← fromCall (st.setS s) none (callfF .storeChangePriority s [st.n key] [x] [])
+    match r with
+    | .optPPos none => pure (st.setS s, .ret (.optP none))
+    | .optPPos (some (old, pos)) => do
+      let (st, fl) ← execStepF fuse dropFuse plain callf recF callfF byRef body ((st.setS s).setN vpos pos)
+      match fl with
+      | .normal => pure (st, .ret (.optP (some old)))
+      | _ => .error (.fault stuck)
+    | _ => .error (.fault stuck)
+  | .mapChangedBy key fv vpos body, st =>
+    match st.v fv with
+    | some g => do
+      let (s, r) ← fromCall st none (callfF .storeChangePriorityBy st.s [st.n key] [] [g])
+      match r with
+      | .optNat none => pure (st.setS s, .ret (.bool false))
+      | .optNat (some pos) => do
+        let (st, fl) ← execStepF fuse dropFuse plain callf recF callfF byRef body ((st.setS s).setN vpos pos)
+        match fl with
+        | .normal => pure (st, .ret (.bool true))
+        | _ => .error (.fault stuck)
+      | _ => .error (.fault stuck)
+    | none => .error (.fault stuck)
   | c, st => liftF (plain c st)
 
 /-- fused call: run the body; when it panics, run the frame's unwind code (plain: it contains no panic point) on the state
